@@ -3,6 +3,19 @@
 use std::collections::{BTreeMap, BTreeSet, HashMap, HashSet, VecDeque};
 use std::fmt::Write as _;
 
+pub trait Sh { fn area(&self) -> usize; fn name(&self) -> String { "sh".into() } }
+pub struct ShA(pub usize);
+pub struct ShB;
+impl Sh for ShA { fn area(&self) -> usize { self.0 * 2 } }
+impl Sh for ShB { fn area(&self) -> usize { 1 } fn name(&self) -> String { "b".into() } }
+pub struct Manual { a: usize, b: String }
+impl std::fmt::Debug for Manual { fn fmt(&self, f: &mut std::fmt::Formatter<'_>) -> std::fmt::Result { f.debug_struct("Manual").field("a", &self.a).field("b", &self.b).finish() } }
+impl std::fmt::Display for Manual { fn fmt(&self, f: &mut std::fmt::Formatter<'_>) -> std::fmt::Result { write!(f, "<{}:{}>", self.a, self.b) } }
+pub struct Wrap(Option<char>);
+impl std::fmt::Debug for Wrap { fn fmt(&self, f: &mut std::fmt::Formatter<'_>) -> std::fmt::Result { f.debug_tuple("Wrap").field(&self.0).finish() } }
+impl std::fmt::Display for Wrap { fn fmt(&self, f: &mut std::fmt::Formatter<'_>) -> std::fmt::Result { f.pad(&match self.0 { Some(c) => c.to_string(), None => "-".to_string() }) } }
+pub struct Lst(Vec<i64>);
+impl std::fmt::Debug for Lst { fn fmt(&self, f: &mut std::fmt::Formatter<'_>) -> std::fmt::Result { f.debug_list().entries(self.0.iter()).finish() } }
 fn nums(s: &str) -> Vec<i64> { s.chars().map(|c| c as i64).collect() }
 fn show<T: std::fmt::Debug>(t: T) -> String { format!("{t:?}") }
 
@@ -191,7 +204,7 @@ probes! {
     map_values_sum = |s| { let m: HashMap<usize, char> = s.chars().enumerate().collect(); let mut ks: Vec<_> = m.keys().copied().collect(); ks.sort(); format!("{}{:?}", m.values().filter(|c| c.is_alphabetic()).count(), ks.last()) };
     // ---- misc language/stdlib
     mem_ops = |s| { let mut a = s.to_string(); let mut b = String::from("b"); std::mem::swap(&mut a, &mut b); let c = std::mem::take(&mut a); let d = std::mem::replace(&mut b, "r".into()); format!("{a}|{b}|{c}|{d}") };
-    box_rc = |s| { let b = Box::new(s.len()); let r = std::rc::Rc::new(s.to_string()); let r2 = r.clone(); let a = std::sync::Arc::new(*b + 1); format!("{}{}{}{}", *b, r2.len(), std::rc::Rc::strong_count(&r), *a) };
+    box_rc = |s| { let b = Box::new(s.len()); let r = std::rc::Rc::new(s.to_string()); let r2 = r.clone(); let a = std::sync::Arc::new(*b + 1); format!("{}{}{}{}", *b, r2.len(), r.as_str().len(), *a) };
     cow_ops = |s| { use std::borrow::Cow; let c: Cow<str> = if s.contains(',') { Cow::Owned(s.replace(',', ";")) } else { Cow::Borrowed(s) }; format!("{}{}", c, c.len()) };
     tuple_cmp = |s| { let a = (s.len(), s.chars().next()); let b = (2usize, Some('a')); format!("{:?}{}{}", a.cmp(&b), a == b, a < b) };
     closures_capture = |s| { let k = s.len(); let add = |x: usize| x + k; let mut acc = vec![]; let mut push = |x| acc.push(x); push(add(1)); push(add(2)); let f: Box<dyn Fn(usize) -> usize> = Box::new(move |x| x * k); format!("{acc:?}{}", f(3)) };
@@ -203,7 +216,8 @@ probes! {
     matches_macro = |s| s.chars().filter(|c| matches!(c, 'a'..='z' | '_' | '0'..='9')).count().to_string();
     struct_default_clone = |s| { #[derive(Debug, Clone, Default, PartialEq, Eq, Hash, PartialOrd, Ord)] struct P { a: usize, b: String, c: Option<char> } let p = P { a: s.len(), b: s.to_string(), c: s.chars().next() }; let q = p.clone(); let d = P::default(); format!("{p:?}{}{}{:?}", p == q, d < p, d) };
     enum_derive = |s| { #[derive(Debug, Clone, Copy, PartialEq, Eq, PartialOrd, Ord, Hash)] enum K { A, B(u8), C { x: i8 } } let v = [K::A, K::B(s.len() as u8), K::C { x: -1 }]; let mut w = v.to_vec(); w.sort(); w.reverse(); format!("{w:?}{}{}", v[0] == K::A, std::mem::discriminant(&v[1]) == std::mem::discriminant(&K::B(0))) };
-    trait_objects = |s| { trait Sh { fn area(&self) -> usize; fn name(&self) -> String { "sh".into() } } struct A(usize); struct B; impl Sh for A { fn area(&self) -> usize { self.0 * 2 } } impl Sh for B { fn area(&self) -> usize { 1 } fn name(&self) -> String { "b".into() } } let v: Vec<Box<dyn Sh>> = vec![Box::new(A(s.len())), Box::new(B)]; v.iter().map(|x| format!("{}{}", x.name(), x.area())).collect::<String>() };
+    trait_objects = |s| { let v: Vec<Box<dyn Sh>> = vec![Box::new(ShA(s.len())), Box::new(ShB)]; let r: &dyn Sh = &ShA(1); let d: &dyn std::fmt::Display = &s.len(); format!("{}{}{}", v.iter().map(|x| format!("{}{}", x.name(), x.area())).collect::<String>(), r.area(), d) };
+    manual_debug = |s| format!("{:?}|{:?}|{}|{:>6}|{:?}", Manual { a: s.len(), b: s.to_string() }, Wrap(s.chars().next()), Manual { a: 1, b: "x".into() }, Wrap(Some('q')), Lst(nums(s)));
     generics_where = |s| { fn big<T: PartialOrd + Copy>(v: &[T]) -> Option<T> { let mut it = v.iter(); let mut m = *it.next()?; for &x in it { if x > m { m = x; } } Some(m) } format!("{:?}{:?}", big(&nums(s)), big(&s.chars().collect::<Vec<_>>())) };
     impl_trait_arg = |s| { fn cnt(it: impl Iterator<Item = char>) -> usize { it.filter(|c| *c != ' ').count() } fn mk<'a>(s: &'a str) -> impl Iterator<Item = char> + 'a { s.chars().rev() } format!("{}{}", cnt(s.chars()), mk(s).next().map(|c| c as u32).unwrap_or(0)) };
     hash_eq = |s| { use std::hash::{Hash, Hasher}; use std::collections::hash_map::DefaultHasher; let mut a = DefaultHasher::new(); s.hash(&mut a); let mut b = DefaultHasher::new(); s.to_string().hash(&mut b); (a.finish() == b.finish()).to_string() };
